@@ -208,7 +208,7 @@ Definition is_srv_op (name : bytes) : bool :=
 Definition c19_op (s : server) (op : list tok) : list tok * server :=
   match op with
   | TB name :: rest =>
-      if is_srv_op name then srv_op s op
+      if is_srv_op name then srv_op_plain s op
       else match rest with
            | TI t :: a => match eng_op name t (get_db s 0) a with (o, d') => (o, set_db s 0 d') end
            | _ => ([TB (bs "BADOP")], s)
